@@ -42,7 +42,9 @@ D0(name) == [k |-> "", pub |-> FALSE, ext |-> FALSE, opq |-> FALSE, name |-> nam
              params |-> <<>>, ret |-> <<>>, ty |-> <<>>, val |-> <<>>, mem |-> <<>>,
              size |-> 0, body |-> <<>>, res |-> <<>>]
 
-Lits == {"0", "1", "2", "3", "7", "42"}
+\* literals of one node each: integers, and (dimension audit) string and character literals whose text needs escaping
+\* in an XML dump (`<`, `&`, quotes, a backslash)
+Lits == {"0", "1", "2", "3", "7", "42", "\"a<b&c>d\"", "\"q\\\"q\"", "'<'", "'&'", "'\\''", "'\"'"}
 BinOps == {"+", "-", "*", "/", "%"}
 UnOps == {"neg", "not"}
 
